@@ -79,6 +79,8 @@ def oracle_small(inst, obs, nmax, collect=None):
     snap, grid, n, vm = obs["snap"], list(inst["grid"]), obs["n"], obs["vars"]
     ncust = len(snap[1]) - 1
     d = dict(snap[2])
+    if getattr(obs["p"], "vq_grid_modified", None):
+        return (obs["p"].vq_grid_modified + " (the time grid is the caller's data; grid times of the routes are read from it)", [], [0] * n)
     # the formulation works on the graph that was described (whatever the order of add_arc / set_depot calls)
     if "arcs" in inst and "depot" in inst and not inst.get("rebuild"):
         gp = ac.graph_problem(inst, snap)
